@@ -44,6 +44,7 @@ func casColor(v int) string { return fmt.Sprintf("rgb(%d, 7, 9)", v) }
 var (
 	casSheetHint bool
 	casHintAt    int
+	casScreen    bool // the scenario is rendered for the media type screen
 )
 
 func casAlign(v int) string {
@@ -78,6 +79,13 @@ func casDecl(v int, imp bool) string {
 // casMaterialise builds the document, the replaced UA sheet, the user sheets and the in-memory files.
 func casMaterialise(s *casScn) (htmlText string, o *drv.Opts) {
 	o = &drv.Opts{Hints: s.Hints, Files: map[string]string{}}
+	// every other scenario is rendered for the media type screen: "@media <device type>" applies, the other type never does,
+	// and imported sheets carry their rule inside @media <device type> (the media type must reach the imported sheets)
+	device, other := "print", "screen"
+	if casScreen {
+		device, other = "screen", "print"
+		o.Media = "screen"
+	}
 	var head, ua strings.Builder
 	attr, hint := "", ""
 	ua.WriteString("html, body, font, p { display: block }\n")
@@ -106,15 +114,18 @@ func casMaterialise(s *casScn) (htmlText string, o *drv.Opts) {
 		case "import":
 			u := fmt.Sprintf("http://verif.test/i%d.css", j)
 			o.Files[u] = rule
+			if casScreen {
+				o.Files[u] = "@media " + device + "{" + rule + "} @media " + other + "{" + sel + "{" + casDecl(150+j, true) + "}}"
+			}
 			head.WriteString(fmt.Sprintf("<style>@import url(i%d.css);</style>\n", j))
 		case "import_late":
 			u := fmt.Sprintf("http://verif.test/i%d.css", j)
 			o.Files[u] = rule
 			head.WriteString(fmt.Sprintf("<style>.zz{color:black} @import url(i%d.css);</style>\n", j))
 		case "media_print":
-			head.WriteString("<style>@media print{" + rule + "}</style>\n")
+			head.WriteString("<style>@media " + device + "{" + rule + "}</style>\n")
 		case "media_screen":
-			head.WriteString("<style>@media screen{" + rule + "}</style>\n")
+			head.WriteString("<style>@media " + other + "{" + rule + "}</style>\n")
 		case "nested":
 			head.WriteString("<style>" + sel + "{" + casDecl(100+j, false) + "; &{" + casDecl(j, oc.Imp) + "}}</style>\n")
 		case "burst15", "burst20", "burst33":
@@ -135,7 +146,15 @@ func casMaterialise(s *casScn) (htmlText string, o *drv.Opts) {
 		case "nomatch":
 			head.WriteString("<style>#nomatch{" + casDecl(j, oc.Imp) + "}</style>\n")
 		case "attr":
-			attr = ` style="` + casDecl(j, oc.Imp) + `"`
+			// (the same longhand twice in the attribute, same importance: the later declaration wins)
+			decoy := "color:rgb(1, 2, 3)"
+			if casSheetHint {
+				decoy = "text-align:end"
+			}
+			if oc.Imp {
+				decoy += " !important"
+			}
+			attr = ` style="` + decoy + `;` + casDecl(j, oc.Imp) + `"`
 		case "hint":
 			hint = fmt.Sprintf(` color="#%02x0709"`, j)
 			if casSheetHint {
@@ -219,6 +238,7 @@ func c03Main(args []string) int {
 			return
 		}
 		casSheetHint, casHintAt = false, 0
+		casScreen = out.Cur%2 == 1
 		for k, oc := range s.Occs {
 			if oc.Car == "hint" && out.Cur%2 == 1 {
 				casSheetHint, casHintAt = true, k+1
